@@ -7,7 +7,7 @@ class C08(SCheck):
     prop = "C08"
     level = "exploration"
     default_seed = 8008
-    N = {"quick": 300, "thorough": 8000}
+    N = {"quick": 600, "thorough": 8000}
     K = {"quick": 3, "thorough": 6}
     technique = "deterministic simulation: seeded schedules (walker's existence check vs busy workers, permuted directory order, starved walker), snapshot oracle on pre-existing destination entries"
     rule = ("case = source tree x destination pre-populated with colliding regular files, directories, live and dangling symlinks, FIFOs/sockets "
